@@ -33,11 +33,11 @@ func getCachedPath(expr string) []string {
 	parts := splitPathImpl(expr)
 
 	// Cache if under limit
+	pathCache.Lock()
 	if len(pathCache.m) < pathCacheLimit {
-		pathCache.Lock()
 		pathCache.m[expr] = parts
-		pathCache.Unlock()
 	}
+	pathCache.Unlock()
 
 	return parts
 }
